@@ -890,6 +890,7 @@ pub fn verify_store_against_model(
             Err(e) => fail!(format!("{sig_prefix}store-unreadable"), "index {wname}: {e}"),
         };
         ensure!(oi.count() == *cnt, format!("{sig_prefix}window-count"), "index {wname} exposes {} entries, declared {cnt}", oi.count());
+        ensure!(oi.index.is_empty() == (*cnt == 0), format!("{sig_prefix}window-count"), "index {wname} of {cnt} entries answers is_empty() = {}", oi.index.is_empty());
         ensure!(
             oi.index.offset().into_u32() as usize == *off,
             format!("{sig_prefix}window-offset"),
